@@ -20,7 +20,13 @@ Record olane := { o_read : list N; o_sent : list (N * N); o_bad : N }.
 Record ilane := { i_arr : list N; i_wr : list N; i_bad : N }.
 (* t_outp / t_inp: lanes of a peer that was REMOVED during the run: its packets may be discarded from
    some point on, so only "prefix, increasing, nothing unprocessed" is required of them *)
-Record trace := { t_out : list olane; t_in : list ilane; t_quiet : bool; t_outp : list olane; t_inp : list ilane }.
+Record trace := { t_out : list olane; t_in : list ilane; t_quiet : bool; t_outp : list olane; t_inp : list ilane;
+                  t_outm : list olane; t_outu : list olane }.
+(* t_outm: outbound lanes of runs with SEVERAL concurrent flushers (keepalives, UAPI): the property promises no
+   order there, only "exactly once, fully processed": the emitted sequence numbers are pairwise distinct, all
+   submitted ones, and (when quiescent) as many as were submitted.
+   t_outu: outbound lanes of runs in which the interface goes down and up during the flood: packets may be
+   discarded while it is down; what is emitted is emitted at most once and fully processed. *)
 
 Fixpoint eql (a b : list N) : bool :=
   match a, b with
@@ -51,6 +57,15 @@ Definition olane_ok (q : bool) (l : olane) : bool :=
 Definition ilane_ok (q : bool) (l : ilane) : bool :=
   same q (i_wr l) (i_arr l) && (i_bad l =? 0).
 
+Fixpoint distinctN (l : list N) : bool :=
+  match l with [] => true | x :: r => negb (existsb (N.eqb x) r) && distinctN r end.
+
+Definition mlane_ok (complete : bool) (l : olane) : bool :=
+  let e := map snd (o_sent l) in
+  distinctN e && forallb (fun x => existsb (N.eqb x) (o_read l)) e && (o_bad l =? 0) &&
+  (if complete then N.of_nat (length e) =? N.of_nat (length (o_read l)) else true).
+
 Definition holdsb (t : trace) : bool :=
   forallb (olane_ok (t_quiet t)) (t_out t) && forallb (ilane_ok (t_quiet t)) (t_in t) &&
-  forallb (olane_ok false) (t_outp t) && forallb (ilane_ok false) (t_inp t).
+  forallb (olane_ok false) (t_outp t) && forallb (ilane_ok false) (t_inp t) &&
+  forallb (mlane_ok (t_quiet t)) (t_outm t) && forallb (mlane_ok false) (t_outu t).
